@@ -51,6 +51,12 @@ func NewConnPair(a, b string) (*Conn, *Conn) {
 	return ca, cb
 }
 
+// FailNextWrite makes the next Write on this end (and every later one) fail: the outbound half is dead while
+// the inbound half still works.
+//
+//go:norace
+func (c *Conn) FailNextWrite() { c.WriteFailAt = c.writes + 1 }
+
 var ErrClosedConn = errors.New("memconn: use of closed connection")
 var ErrInjected = errors.New("memconn: injected write failure")
 
